@@ -273,6 +273,9 @@ def _load_bs(basis_dir, n, degree, verbose=False):
     best_size = np.inf
     for f in glob(os.path.join(basis_dir, file_mask)):
         size = int(f.split('_')[-2])  # (from '...basis_<size>_<degree>.npy')
+        if degree == 3 and size != n:
+            # cubic splines depend on the total size, cannot be cropped
+            continue
         if n <= size < best_size:
             best_size = size
             best_file = f
@@ -288,7 +291,7 @@ def _load_bs(basis_dir, n, degree, verbose=False):
         print('Incompatible cached basis-set file!')
         return None
 
-    if size > n:
+    if best_size > n:
         bs = bs[:n, :n]
         if verbose:
             print('(cropped to {})'.format(n))
